@@ -209,7 +209,7 @@ class CLoop(BLoop):
         return super().is_running()
 
 
-def gen_scenario(rng, lifecycle=True):
+def gen_scenario(rng, lifecycle=True, resume=False):
     nloops = rng.randint(2, 4)
     loops = []
     for li in range(nloops):
@@ -219,17 +219,54 @@ def gen_scenario(rng, lifecycle=True):
                             'cancel_at': rng.choice([None, None, None, 2, 61, 100])})
         life = 'complete'
         if lifecycle and rng.random() < 0.35:
-            life = rng.choice(['early-shutdown', 'early-shutdown', 'early-close'])
+            life = rng.choice(['early-shutdown', 'early-shutdown', 'early-close'] +
+                              (['pause-resume', 'pause-resume'] if resume else []))
         loops.append({'callers': callers, 'life': life, 'early_at': rng.choice([0, 1, 3]),
                       'gap': rng.choice([0, 2, 10, 70])})
     return {'loops': loops, 'durs': [rng.choice([0, 1, 5, 70, 130]) for _ in range(8)],
             'fails': [rng.random() < 0.3 for _ in range(8)], 'capacity': rng.choice([None, None, None, 1])}
 
 
-def run_scenario(scn, seed, pct=0, choices=None):
+def gen_takeover_resume(rng):
+    """Scenario family: a loop pauses with a computation and a co-located waiter pending, another loop takes the
+    key over and finishes during the pause, the first loop is resumed and its computation ends."""
+    a = {'callers': [{'key': 0, 'delay': 0, 'cancel_at': None},
+                     {'key': 0, 'delay': rng.choice([0, 0, 1]), 'cancel_at': rng.choice([None, None, None, 100])}],
+         'life': 'pause-resume', 'early_at': rng.choice([0, 1, 1, 3]), 'gap': rng.choice([2, 4, 10])}
+    b = {'callers': [{'key': 0, 'delay': rng.choice([1, 2, 3, 4, 6]), 'cancel_at': None}],
+         'life': 'complete', 'early_at': 0, 'gap': 0}
+    loops = [a, b]
+    if rng.random() < 0.4:
+        loops.append({'callers': [{'key': rng.choice([0, 1]), 'delay': rng.choice([0, 2, 9, 30]), 'cancel_at': None}],
+                      'life': rng.choice(['complete', 'complete', 'early-shutdown']), 'early_at': rng.choice([0, 1, 3]),
+                      'gap': rng.choice([0, 2, 10])})
+    if rng.random() < 0.3:
+        loops[0], loops[1] = loops[1], loops[0]
+    durs = [rng.choice([5, 8, 12, 20]), rng.choice([0, 1, 2])] + [rng.choice([0, 1, 5, 70]) for _ in range(6)]
+    fails = [rng.random() < 0.15, rng.random() < 0.15] + [rng.random() < 0.3 for _ in range(6)]
+    return {'loops': loops, 'durs': durs, 'fails': fails, 'capacity': rng.choice([None, None, None, 1])}
+
+
+def gen_death_race(rng):
+    """Scenario family: a caller on another loop arrives just as the computing loop returns from
+    run_until_complete and is shut down / closed (the instants coincide; the schedule decides the rest)."""
+    e = rng.choice([0, 1, 3])
+    a = {'callers': [{'key': 0, 'delay': 0, 'cancel_at': None}],
+         'life': rng.choice(['early-close', 'early-shutdown']), 'early_at': e, 'gap': rng.choice([0, 0, 2])}
+    b = {'callers': [{'key': 0, 'delay': e, 'cancel_at': rng.choice([None, None, 61])}],
+         'life': 'complete', 'early_at': 0, 'gap': 0}
+    if rng.random() < 0.3:
+        b['callers'].append({'key': 0, 'delay': rng.choice([0, e]), 'cancel_at': None})
+    loops = [a, b] if rng.random() < 0.5 else [b, a]
+    durs = [rng.choice([5, 70]), rng.choice([0, 1, 5])] + [rng.choice([0, 1, 5]) for _ in range(6)]
+    fails = [False, rng.random() < 0.3] + [rng.random() < 0.3 for _ in range(6)]
+    return {'loops': loops, 'durs': durs, 'fails': fails, 'capacity': None}
+
+
+def run_scenario(scn, seed, pct=0, choices=None, preempt=None):
     global ENV
     import aiuti.asyncio as A
-    S = Sched(seed, choices=choices, pct_depth=pct, max_steps=30000)
+    S = Sched(seed, choices=choices, pct_depth=pct, max_steps=30000, preempt=preempt)
     E = CEnv(S)
     ENV = E
     saved = (A.Lock, A.aio)
@@ -331,6 +368,14 @@ def run_scenario(scn, seed, pct=0, choices=None):
                 E.obs.append(f'lp:{li}')
             if spec['life'] != 'complete':
                 S.point('loop.stopped', enabled=lambda: False, deadline=S.vt + spec['gap'])
+            if spec['life'] == 'pause-resume':
+                # `run_until_complete` a second time on the same loop: the callers left pending go on
+                S.point('loop.resume')
+                E.obs.append(f'lu:{li}')
+                try:
+                    loop.run_until_complete(asyncio.gather(*tasks, return_exceptions=True))
+                finally:
+                    E.obs.append(f'lp:{li}')
             if spec['life'] == 'early-shutdown':
                 S.point('loop.shutdown')
                 stop_info[li] = True
@@ -351,7 +396,7 @@ def run_scenario(scn, seed, pct=0, choices=None):
         A.aio = saved[1]
     # the run is over: whatever abandoned coroutines do when they are finalized is not part of it
     out = dict(obs=list(E.obs), inv=list(E.inv), results=dict(E.results), hung=S.hung, errors=list(S.errors),
-               trace=list(S.trace), ncallers=sum(len(l['callers']) for l in scn['loops']), vt=S.vt)
+               trace=list(S.trace), branching=list(S.branching), ncallers=sum(len(l['callers']) for l in scn['loops']), vt=S.vt)
     E.dead = True
     for t in E.keep:
         if not t.done():
@@ -437,24 +482,59 @@ def monitors(scn, r, want):
                 bad.append(('C06', 'foreign-cancel', f'caller {c} was cancelled although neither its client nor its '
                                                      f'own loop\'s shutdown cancelled it'))
     if 'C05' in want and not r['hung']:
-        # promptness: a caller that returns a value finishes no later than the end of the invocation that
-        # produced it (if it asked before), unless its own loop was not running in between
+        # promptness: a caller that returns a value without computing it itself finishes no later than the end of
+        # the computation it last waited for (the owner of the in-flight marker it last captured) - a wake-up,
+        # not the 60 s safety timer, releases it; a caller that never waited finishes at once.  Its own loop
+        # being paused meanwhile is the only allowance.
+        marker = {}
+        last_owner = {}
+        invoked = set()
+        for o in obs:
+            p = o.split(':')
+            if p[0] == 'mp':
+                marker[caller_key.get(int(p[1]))] = int(p[1])
+            elif p[0] == 'md' and p[2] == '1':
+                if marker.get(caller_key.get(int(p[1]))) == int(p[1]):
+                    del marker[caller_key.get(int(p[1]))]
+            elif p[0] == 'mg' and p[2] == '1':
+                last_owner[int(p[1])] = marker.get(caller_key.get(int(p[1])))
+            elif p[0] == 'is':
+                invoked.add(int(p[1]))
+        inv_of = {v['caller']: v for v in r['inv']}
         for c, res in r['results'].items():
-            o = res['out']
-            if o[0] == 'ok':
-                iv = inv_by_id.get(o[1])
-                if iv and iv['end'] is not None:
-                    expect = max(res['t0'], iv['end'])
-                    dead = sum(1 for l in scn['loops'] if l['life'] != 'complete')
-                    # waiters of a loop that died may need the 60 s safety timer (once per dead loop) to recover
-                    if res['t1'] > expect + 60 * dead and scn['loops'][res['loop']]['life'] == 'complete':
-                        bad.append(('C05', 'late', f'caller {c} got the value of invocation {o[1]} at {res["t1"]} '
-                                                   f'although it was available at {expect} '
-                                                   f'({dead} loops stopped mid-run)'))
+            if res['out'][0] != 'ok' or c in invoked:
+                continue
+            mine = scn['loops'][res['loop']]
+            if mine['life'] not in ('complete', 'pause-resume'):
+                continue
+            slack = mine['gap'] if mine['life'] == 'pause-resume' else 0
+            if c not in last_owner:
+                if res['t1'] > res['t0'] + slack:
+                    bad.append(('C05', 'late', f'caller {c} found its value in the cache at {res["t0"]} but returned at {res["t1"]}'))
+                continue
+            iv = inv_of.get(last_owner[c])
+            if iv is None or iv['end'] is None:
+                continue             # the computation it waited for never ended (its loop died): the safety net applies
+            expect = max(res['t0'], iv['end'])
+            # the wake-up of a cross-loop waiter travels through the computing loop (the wait runs there): if that
+            # loop stops - pauses, is shut down, or simply exits because its own work is done - after the
+            # computation ended and before the waiter is released, the wake-up may be delayed or lost and the 60 s
+            # safety timer recovers; the property allows that ("while the computing loop is alive")
+            theirs = scn['loops'][iv['loop']] if iv.get('loop') is not None else mine
+            if theirs is not mine:
+                i_end = next((i for i, o in enumerate(obs) if o.startswith(f'ie:{last_owner[c]}:')), 0)
+                i_ret = next((i for i, o in enumerate(obs) if o.startswith(f'rt:{c}:')), len(obs))
+                if any(o in (f'lp:{iv["loop"]}', f'lc:{iv["loop"]}') for o in obs[i_end:i_ret]):
+                    slack += 60
+            if res['t1'] > expect + slack:
+                bad.append(('C05', 'late', f'caller {c} last waited for the computation of caller {last_owner[c]}, which '
+                                           f'ended at {iv["end"]}, but was released only at {res["t1"]} '
+                                           f'(called at {res["t0"]})'))
         done = set(r['results'])
         for li, spec in enumerate(scn['loops']):
-            if spec['life'] == 'complete':
+            if spec['life'] in ('complete', 'pause-resume'):
                 for cs in spec['callers']:
-                    if cs.get('_id') not in done:
+                    # (a caller whose client cancelled it before it ever called the wrapper made no call)
+                    if cs.get('_id') not in done and cs.get('_id') in caller_key:
                         bad.append(('C05', 'never-finished', f'caller {cs.get("_id")} on loop {li} never finished'))
     return bad
